@@ -262,6 +262,23 @@ SyntaxVisitor::Action DeclarationBinder::visitCompoundStatement(const CompoundSt
     return Action::Skip;
 }
 
+SyntaxVisitor::Action DeclarationBinder::visitForStatement(const ForStatementSyntax* node)
+{
+    /*
+     * 6.8.5-5
+     * An iteration statement is a block whose scope is a strict subset of the scope of
+     * its enclosing block: a declaration in the first clause is local to the loop.
+     */
+    pushNewScope(node, ScopeKind::Block, true);
+    VISIT(node->initializer());
+    VISIT(node->condition());
+    VISIT(node->expression());
+    VISIT(node->statement());
+    popScope();
+
+    return Action::Skip;
+}
+
 //-------------//
 // Expressions //
 //-------------//
